@@ -79,7 +79,7 @@ func switchTrueSet(p *pkg, fname string) []string {
 	if fd == nil {
 		fatal("func %s not found", fname)
 	}
-	if len(fd.Body.List) != 2 {
+	if len(fd.Body.List) < 1 || len(fd.Body.List) > 2 {
 		p.bad(fd, "body shape of %s", fname)
 	}
 	sw, ok := fd.Body.List[0].(*ast.SwitchStmt)
@@ -89,28 +89,38 @@ func switchTrueSet(p *pkg, fname string) []string {
 	if id, ok := sw.Tag.(*ast.Ident); !ok || id.Name != fd.Recv.List[0].Names[0].Name {
 		p.bad(sw, "switch tag of %s", fname)
 	}
-	ret, ok := fd.Body.List[1].(*ast.ReturnStmt)
-	if !ok || len(ret.Results) != 1 || identName(ret.Results[0]) != "false" {
-		p.bad(fd, "final return of %s", fname)
+	retIs := func(s ast.Stmt, want string) bool {
+		r, ok := s.(*ast.ReturnStmt)
+		return ok && len(r.Results) == 1 && identName(r.Results[0]) == want
 	}
 	var out []string
-	if len(sw.Body.List) != 1 {
-		p.bad(sw, "case clauses of %s", fname)
-	}
-	cc := sw.Body.List[0].(*ast.CaseClause)
-	if len(cc.Body) != 1 {
-		p.bad(cc, "case body of %s", fname)
-	}
-	r, ok := cc.Body[0].(*ast.ReturnStmt)
-	if !ok || len(r.Results) != 1 || identName(r.Results[0]) != "true" {
-		p.bad(cc, "case body of %s", fname)
-	}
-	for _, e := range cc.List {
-		n := identName(e)
-		if n == "" {
-			p.bad(e, "case expression of %s", fname)
+	sawDefault := false
+	for _, c := range sw.Body.List {
+		cc := c.(*ast.CaseClause)
+		if cc.List == nil {
+			if len(cc.Body) != 1 || !retIs(cc.Body[0], "false") {
+				p.bad(cc, "default clause of %s", fname)
+			}
+			sawDefault = true
+			continue
 		}
-		out = append(out, n)
+		if len(cc.Body) != 1 || !retIs(cc.Body[0], "true") {
+			p.bad(cc, "case body of %s", fname)
+		}
+		for _, e := range cc.List {
+			n := identName(e)
+			if n == "" {
+				p.bad(e, "case expression of %s", fname)
+			}
+			out = append(out, n)
+		}
+	}
+	if len(fd.Body.List) == 2 {
+		if !retIs(fd.Body.List[1], "false") {
+			p.bad(fd, "final return of %s", fname)
+		}
+	} else if !sawDefault {
+		p.bad(fd, "%s has neither default clause nor final return", fname)
 	}
 	return out
 }
